@@ -13,6 +13,7 @@ mod c06;
 mod c06wrap;
 mod c07;
 mod c08;
+mod c15;
 mod c09;
 mod c10;
 mod c10conn;
@@ -58,6 +59,7 @@ fn main() {
             let rec = match prop.as_str() {
                 "C05" | "C13" | "C06" | "C14" | "C08" => c05::trace(&prop, t, idx, &choices, script, 20_000),
                 "C07" => c07::trace(t, idx, &choices, script, 20_000),
+                "C15" => c15::trace(t, idx, &choices, script, 20_000),
                 "C03" | "C04" | "C11" | "C12" | "C16" | "C17" => c03::trace(&prop, t, idx, &choices, script, 20_000),
                 _ => {
                     eprintln!("no trace support for {prop}");
@@ -87,6 +89,7 @@ fn main() {
                 let rec = match prop.as_str() {
                     "C05" | "C13" | "C06" | "C14" | "C08" => c05::trace(&prop, t, idx, &choices, None, max_polls),
                     "C07" => c07::trace(t, idx, &choices, None, max_polls),
+                    "C15" => c15::trace(t, idx, &choices, None, max_polls),
                     "C03" | "C04" | "C11" | "C12" | "C16" | "C17" => c03::trace(&prop, t, idx, &choices, None, max_polls),
                     _ => {
                         eprintln!("no simnet replay for {prop}");
@@ -133,6 +136,7 @@ fn main() {
                 Some("C03") => c03::run_c03(t),
                 Some("C04") => c03::run_c04(t),
                 Some("C07") => c07::run(t),
+                Some("C15") => c15::run(t),
                 Some("C08") => c08::run(t),
                 Some("C11") => c11::run(t),
                 Some("C17") => c17::run(t),
